@@ -122,8 +122,71 @@ def c03(tier, seed):
     )
 
 
+def c06(tier, seed):
+    return generic(
+        "C06", tier, seed, scaled_quick=(), scaled_thorough=(), budgets=(90, 900),
+        rule="direction 1: archives written by the library (the C01 production programs) are decoded by an independent implementation of FORMAT.md with every "
+             "structural statement checked (tag of chunk i under nonce||BE32(i), non-final chunks of 128 KiB, non-final blocks of 4 MiB, footers, hashes); "
+             "direction 2: archives encoded by the independent implementation (own block splitting incl. empty blocks, ids, recipient order, brotli quality) are read by "
+             "get_file, linear_extract and repair; cipher core: AesGcm256 against the aes-gcm crate for boundary lengths x split shapes; "
+             "distinct = distinct case; non-trivial = a program with 2 files/pieces or one chunk, any model-encoded archive, any non-empty message",
+        musthit=["lib_to_model:layers1", "lib_to_model:layers3", "model_to_lib:layers3", "model_to_lib:with_empty_content_blocks", "held:cipher",
+                 "structural:chunks_verified_with_nonce_be32_index"],
+        assumptions=["FORMAT.md's worked example lists an offset for every block of a file while the structure comment says 'continuous chunks'; the model encoder emits run starts (not tested as a demand)"],
+    )
+
+
+def c10(tier, seed):
+    return generic(
+        "C10", tier, seed, budgets=(60, 900),
+        rule="histories of list / get_file / read(buffer) / abandon / get_hash on one opened reader over archives of interleaved files spanning several chunks "
+             "and blocks; every returned byte count, byte, end-of-file position, size and hash is compared with the reference bytes of the file; constructive "
+             "sub-histories abandon a file at every offset (scaled) or offset class (production) and then open another / the same file or ask a hash; "
+             "distinct = distinct (program, history); non-trivial = at least 3 operations",
+        musthit=["abandon:inside", "abandon:at_end", "abandon:at_start", "op:hash", "op:list", "op:read_all"],
+    )
+
+
+def c12(tier, seed):
+    return generic(
+        "C12", tier, seed, budgets=(60, 900),
+        rule="(a) linear_extract of a subset (empty, one, all, random) of heavily interleaved archives into sinks that accept part of each write, compared "
+             "with get_file on a second reader; (b) archives encoded by the independent implementation whose block stream lacks the end-of-data marker "
+             "(all blocks, cut at a block edge, cut inside a block) before a valid footer and under valid outer layers: linear_extract must fail; "
+             "distinct = distinct case; non-trivial = at least 2 files or a marker-less archive",
+        musthit=["subset:empty", "subset:one", "subset:all", "held:extract", "held:no_marker_refused", "no_marker:all_blocks", "no_marker:cut_inside_block"],
+        assumptions=["marker-less archives have at most 64 files: with 254 (mod 256) files the first footer byte equals the marker byte (format limitation); "
+                     "cases where the footer bytes, read as typed blocks by a grammar-only reader, lead to a 0xFE type byte are skipped as format coincidences"],
+    )
+
+
+def c13(tier, seed):
+    return generic(
+        "C13", tier, seed, level="fault_enumeration", budgets=(75, 900),
+        rule="fault = transfer schedule: archives are written through destinations accepting 1 / 1..7 / random / <=4095 bytes per call or interrupting every "
+             "2nd/3rd call and read back; read and repaired (both modes, intact and cut) through sources returning as few bytes per call, and compared with the "
+             "results obtained from memory; distinct = distinct (program, schedule, side); all non-trivial",
+        musthit=["musthit:compress_only_one_byte_source_repair", "write:Interrupt", "write:Max", "read:Max", "held:repair"],
+    )
+
+
+def c14(tier, seed):
+    return generic(
+        "C14", tier, seed, level="fault_enumeration", budgets=(60, 900),
+        rule="fault = cut right after flush() returned: the bytes the destination holds at that moment are repaired in both modes; every file must come back "
+             "with at least the bytes appended before the flush (plain / unauthenticated) or the bytes the independent decoder finds in completed encryption "
+             "chunks (authenticated); distinct = distinct (program, flush index); non-trivial = something was appended before the flush",
+        musthit=["musthit:compressible_200000_then_flush", "flush:layers0", "flush:layers1", "flush:layers2", "flush:layers3"],
+    )
+
+
 PROPS = {
     "C01": c01,
+    "C12": c12,
+    "C13": c13,
+    "C14": c14,
+    "C10": c10,
+    "C06": c06,
     "C03": c03,
     "C04": c04,
     "C02": c02,
